@@ -1,6 +1,8 @@
 package types
 
 import (
+	"fmt"
+
 	"github.com/tendermint/tendermint/crypto/tmhash"
 
 	sdk "github.com/cosmos/cosmos-sdk/types"
@@ -35,6 +37,10 @@ func (tp TokenPair) Validate() error {
 	for _, denom := range tp.Denoms {
 		if err := sdk.ValidateDenom(denom); err != nil {
 			return err
+		}
+		// GetTokenPairID resolves such a string through the ERC20 address index
+		if common.IsHexAddress(denom) {
+			return fmt.Errorf("denomination '%s' is indistinguishable from an ERC20 address", denom)
 		}
 	}
 	if err := ethermint.ValidateAddress(tp.ERC20Address); err != nil {
